@@ -165,6 +165,8 @@ func cmdCheck(args []string) int {
 	unknownExt := map[string]int{}
 	abstracted := map[string]int{}
 	var uncheckedCallers []string
+	var boundaryCallers []string
+	immutNote := map[string]bool{}
 	for _, pr := range conf.Pkgs {
 		c, err := load(pr.Dir, pr.Pattern, "verif")
 		if err != nil {
@@ -172,6 +174,10 @@ func cmdCheck(args []string) int {
 		}
 		if err := c.loadSpecs(trustedFiles); err != nil {
 			return undecided("contracts: " + err.Error())
+		}
+		genErrs = append(genErrs, c.checkImmutables()...)
+		for k := range c.immutable {
+			immutNote[k] = true
 		}
 		// functions under contract for this property
 		var labels []string
@@ -185,10 +191,37 @@ func cmdCheck(args []string) int {
 		// call sites; contracted callers are verified too (their pre@ obligations count toward
 		// this property), callers with no contract at all are reported as unchecked
 		withReq := map[string]bool{}
+		boundaryReq := map[string]bool{}
 		for _, l := range labels {
 			for _, cl := range c.contracts[l].Clauses {
 				if cl.Kind == "requires" && containsStr(cl.Props, *prop) {
-					withReq[l] = true
+					if c.contracts[l].Boundary {
+						// representation invariant of a data structure, assumed at the entry of its
+						// public operations: callers outside the structure are listed, not verified
+						boundaryReq[l] = true
+					} else {
+						withReq[l] = true
+					}
+				}
+			}
+		}
+		if len(boundaryReq) > 0 {
+			inL := map[string]bool{}
+			for _, l := range labels {
+				inL[l] = true
+			}
+			for callerLabel, fn := range c.fnByLabel {
+				if inL[callerLabel] {
+					continue
+				}
+				for _, b := range fn.Blocks {
+					for _, in := range b.Instrs {
+						if ci, ok := in.(ssa.CallInstruction); ok {
+							if callee := ci.Common().StaticCallee(); callee != nil && boundaryReq[c.label(callee)] {
+								boundaryCallers = append(boundaryCallers, callerLabel+" calls "+c.label(callee))
+							}
+						}
+					}
 				}
 			}
 		}
@@ -312,14 +345,31 @@ func cmdCheck(args []string) int {
 				results[i] = solve(o, workdir, 3, false)
 				return
 			}
-			r := solve(o, workdir, *timeout, *tier == "thorough")
-			if r.Verdict == "unknown" && atomic.AddInt32(&retries, 1) <= 8 {
-				r2 := solve(o, workdir, *timeout*3, *tier == "thorough")
-				r2.Log = append(r.Log, r2.Log...)
-				r = r2
-			}
-			results[i] = r
+			results[i] = solve(o, workdir, *timeout, *tier == "thorough")
 		}(i, o)
+	}
+	wg.Wait()
+	// second pass: an obligation no solver decided (usually a timeout on a loaded machine) is
+	// tried again with three times the budget and a quarter of the parallelism, so that it does
+	// not compete with the rest of the run; at most 64 of them, in obligation order
+	sem2 := make(chan struct{}, max(1, *par/4))
+	for i, o := range allObls {
+		r := results[i]
+		if r == nil || r.Verdict != "unknown" || isKnownFinding(*verif, *prop, o.Name) {
+			continue
+		}
+		if atomic.AddInt32(&retries, 1) > 64 {
+			break
+		}
+		wg.Add(1)
+		go func(i int, o *Obl, r *Result) {
+			defer wg.Done()
+			sem2 <- struct{}{}
+			defer func() { <-sem2 }()
+			r2 := solve(o, workdir, *timeout*3, *tier == "thorough")
+			r2.Log = append(r.Log, r2.Log...)
+			results[i] = r2
+		}(i, o, r)
 	}
 	wg.Wait()
 
@@ -459,6 +509,14 @@ func cmdCheck(args []string) int {
 			"calls without a contract are over-approximated: results unconstrained, reachable heap havocked",
 		}
 		assumptions = append(assumptions, conf.Assumed...)
+		sort.Strings(boundaryCallers)
+		sort.Strings(uncheckedCallers)
+		for k := range immutNote {
+			assumptions = append(assumptions, "immutable field "+k+": checked syntactically over the package (written only into the writer's own fresh allocation); reflect/unsafe writes and concurrent publication are not considered")
+		}
+		if len(boundaryCallers) > 0 {
+			assumptions = append(assumptions, "representation invariant assumed at the entry of the data structure's boundary operations; their outside callers are not verified: "+strings.Join(boundaryCallers, "; "))
+		}
 		ev := map[string]any{
 			"property_id": *prop, "tier": *tier, "seed": seed, "level": levelOr(conf.Level, "proof"),
 			"coverage": map[string]any{
@@ -476,6 +534,7 @@ func cmdCheck(args []string) int {
 				"samples":                                  samples,
 				"bounded_stand_ins":                        boundedReports,
 				"callers_without_contract_whose_preconditions_are_unchecked": uncheckedCallers,
+				"api_boundary_invariant_assumed_at_entry_callers_unchecked":  boundaryCallers,
 				"explanation":                              conf.Explanation,
 			},
 			"assumptions": assumptions,
